@@ -56,13 +56,13 @@ VARIABLES base, faults
 CInit == /\ base \in Bases /\ faults = <<>>
          \* the package variables of Msi.tla are not used by this enumeration
          /\ schemas = << >> /\ tstream = << >> /\ pool = <<>> /\ cp = 0 /\ summary = 0 /\ dirty = 0 /\ dpool = 0
-         /\ dsum = 0 /\ ustreams = << >> /\ sess = "closed" /\ ptype = "" /\ ro = FALSE /\ msync = TRUE /\ hist = 0
+         /\ dsum = 0 /\ ustreams = << >> /\ sess = "closed" /\ ptype = "" /\ ro = FALSE /\ msync = TRUE /\ hist = 0 /\ lay = 0
 CNext == /\ faults = <<>>
          /\ LET img == BuildImage(Dbs[base.db], base.c) IN
             \/ \E s \in Singles(base, img) : faults' = <<s>>
             \/ \E s1 \in PairPool(base, img), s2 \in PairPool(base, img) : s1 # s2 /\ faults' = <<s1, s2>>
-         /\ UNCHANGED <<base, vars>>
-CSpec == CInit /\ [][CNext]_<<base, faults, vars>>
+         /\ UNCHANGED <<base, vars, lay>>
+CSpec == CInit /\ [][CNext]_<<base, faults, vars, lay>>
 \* the base images are well-formed: the specification can decode them
 BaseWF == LET img == BuildImage(Dbs[base.db], base.c) IN
           /\ PoolWF(img.pool, AllRowsOf(img.ts))
